@@ -44,9 +44,19 @@ func c10Gen(rng *rand.Rand, idx int, thorough bool) c10Scenario {
 		}
 	case idx%4 == 1:
 		sc.Kind = "history"
+		switch idx {
+		case 1: // canonical: every kind of split survives a redeploy, a rollout redeploy and a restart
+			sc.Hist = []string{"set50", "rollout-deploy", "set50", "deploy", "rollout-deploy", "restart", "deploy", "set0+allow", "deploy", "rollout-deploy", "restart", "set100", "deploy", "rollout-deploy", "restart", "rollout-stop", "deploy", "rollout-deploy", "restart", "deploy"}
+			return sc
+		case 5: // canonical: rollout commands acknowledged while a deploy is waiting for its targets
+			sc.Hist = []string{"rollout-deploy", "set50", "deploy+rollout-stop", "deploy+set100", "deploy", "deploy+set0+allow", "restart", "deploy+rollout-stop", "restart", "deploy+set100", "rollout-deploy"}
+			return sc
+		}
 		n := 4 + rng.IntN(10)
 		for i := 0; i < n; i++ {
-			sc.Hist = append(sc.Hist, pick(rng, []string{"rollout-deploy", "set100", "set0+allow", "rollout-stop", "deploy", "set50", "rollout-deploy", "restart", "restart"}))
+			sc.Hist = append(sc.Hist, pick(rng, []string{"rollout-deploy", "set100", "set0+allow", "rollout-stop", "deploy", "set50", "rollout-deploy", "restart", "restart",
+				// a deploy that is still waiting for its targets to become healthy while the rollout command runs and returns
+				"deploy+rollout-stop", "deploy+set100", "deploy+set0+allow"}))
 		}
 	case idx%4 == 2:
 		sc.Kind = "hostile"
@@ -273,9 +283,37 @@ func c10History(w *World, run *Run, sc c10Scenario, side func(string) string, fa
 	router := func() *server.Router { return (*cur).Router }
 	hasRollout, split := false, ""
 	gen := 1
-	panel := []string{"u1", "u2", "zz9", "0123456789abcdef"}
+	panel := []string{"u1", "u2", "zz9", "0123456789abcdef", "u3", "u4", "u5", "user-6", "user-7", "user-8", "a", "b"}
 	var at50 map[string]string
 	for step, h := range sc.Hist {
+		var pending chan error
+		join := func() bool {
+			if pending == nil {
+				return true
+			}
+			err := <-pending
+			pending = nil
+			if err != nil {
+				fail("deploy-failed", "step %d: overlapping deploy: %v", step, err)
+				return false
+			}
+			return true
+		}
+		if rest, ok := strings.CutPrefix(h, "deploy+"); ok {
+			gen++
+			name := fmt.Sprintf("a%d-t0:80", gen)
+			w.AddTarget(name, func(n int, at time.Duration) ProbeAct {
+				if n == 0 {
+					return ProbeAct{Status: 200, Delay: time.Second}
+				}
+				return ProbeAct{Status: 200}
+			})
+			pending = make(chan error, 1)
+			r := router()
+			go func() { pending <- r.DeployService(svc, []string{name}, DefSO, DefTO, 5*time.Second, time.Second) }()
+			time.Sleep(300*time.Millisecond + OffArrival)
+			h = rest
+		}
 		switch h {
 		case "rollout-deploy":
 			gen++
@@ -323,6 +361,9 @@ func c10History(w *World, run *Run, sc c10Scenario, side func(string) string, fa
 					fail("split-accepted-without-rollout-targets", "step %d: rollout set accepted although no rollout targets were ever deployed", step)
 					return
 				}
+				if !join() {
+					return
+				}
 				continue
 			}
 			if c.Err != "" {
@@ -331,6 +372,9 @@ func c10History(w *World, run *Run, sc c10Scenario, side func(string) string, fa
 			}
 			split = h
 			at50 = nil
+		}
+		if !join() {
+			return
 		}
 		// observe the panel
 		if s := side(""); s != "a" {
